@@ -394,7 +394,7 @@ func c20Run(env *c20Env, c c20Case, mk func() vsChooser, maxSteps int) c20Case {
 		}
 		c.Deadlock = dead
 		if !dead {
-			vsFinish(vs.threads)
+			c20Finish(20000) // bounded: a run that does not end is a finding, not something to wait for
 		}
 	}
 	vs.active = false
@@ -598,8 +598,8 @@ func c20Run(env *c20Env, c c20Case, mk func() vsChooser, maxSteps int) c20Case {
 			}
 		}
 	}
-	if finished && finalState == uint32(streamClosed) && inTable == 0 && len(c.Recv) > 0 {
-		o10["SIG:C10:late-arrival-moved-into-recvBuf-after-clean-is-never-recycled|residue: the stream is closed, cleaned and out of the table, yet recvBuf still holds received bytes (their share-memory slices are never recycled)"] = true
+	if finished && finalState == uint32(streamClosed) && inTable == 0 && (len(c.Recv) > 0 || len(c.Pend) > 0) {
+		o10["SIG:C10:late-arrival-moved-into-recvBuf-after-clean-is-never-recycled|residue: the stream is closed, cleaned and out of the table, yet recvBuf / pendingData still hold received bytes (their share-memory slices are never recycled)"] = true
 	}
 	if c.Deadlock {
 		o10["SIG:C10:Close-inside-OnData-waits-for-its-own-goroutine|a Close() never returned: close() waits on asyncGoroutineWg, which only the waiting thread(s) can release; the stream stays in the table, no close callback, peer not told"] = true
@@ -701,6 +701,29 @@ func c20Run(env *c20Env, c c20Case, mk func() vsChooser, maxSteps int) c20Case {
 	_ = s.Close()
 	return c
 }
+
+// c20Finish runs the remaining threads round robin for at most n more steps (threads that still have not finished
+// stay parked on their grant channel for good: harmless).
+func c20Finish(n int) {
+	for guard := 0; guard < n; guard++ {
+		a := vsAlive(vs.threads)
+		if len(a) == 0 {
+			return
+		}
+		vsStep(vs.threads[a[guard%len(a)]])
+	}
+}
+
+// c20Budget stops a family early once enough of its cases have failed: the check has its concrete failing inputs,
+// more of the same only costs time (a mutated tree can make every case run into the step bound).
+type c20Budget struct{ bad, limit int }
+
+func (b *c20Budget) note(c c20Case) {
+	if len(c.Oracle) > 0 || len(c.Oracle10) > 0 || !c.Finished {
+		b.bad++
+	}
+}
+func (b *c20Budget) spent() bool { return b.bad >= b.limit }
 
 // a chooser that follows a fixed prefix of thread ids and then runs the remaining threads lowest id first
 func c20PrefixChooser(prefix []int) vsChooser {
@@ -875,6 +898,15 @@ func TestVerif_C20(t *testing.T) {
 	defer env.close()
 	r := newVrand(seed)
 	id := 0
+	budget := &c20Budget{limit: 40}
+	run := func(c c20Case, mk func() vsChooser, max int) {
+		if budget.spent() {
+			return
+		}
+		res := c20Run(env, c, mk, max)
+		budget.note(res)
+		o.emit(res)
+	}
 	// ---- random configurations, three schedule strategies ----
 	for ; id < n; id++ {
 		c := c20Case{ID: id, Kind: "normal", Cmp: true, Cb0: true}
@@ -889,7 +921,7 @@ func TestVerif_C20(t *testing.T) {
 		c20GenFlushes(r, &c, 25)
 		strat, mk := c20Strategy(r, id, 1+c.NCl+len(c.Ups))
 		c.Strat = strat
-		o.emit(c20Run(env, c, mk, 3000))
+		run(c, mk, 3000)
 	}
 	// ---- systematic single pre-emption for fixed small configurations ----
 	sys := 0
@@ -906,7 +938,7 @@ func TestVerif_C20(t *testing.T) {
 				c.ID, c.Cmp = id, true
 				c.Strat = fmt.Sprintf("systematic-preempt(t%d@%d)", x, k)
 				x, k := x, k
-				o.emit(c20Run(env, c, func() vsChooser { return vsPreemptChooser(newVrand(seed+uint64(id)), x, k) }, 3000))
+				run(c, func() vsChooser { return vsPreemptChooser(newVrand(seed+uint64(id)), x, k) }, 3000)
 				id++
 				sys++
 			}
@@ -921,7 +953,11 @@ func TestVerif_C20(t *testing.T) {
 			c := c20Case{ID: id, Kind: "exhaustive", Cb0: true, Inb: [][]int{{1, 2}, {3}}, Script: [][2]int{{1, 0}}}
 			c.Cmp = exh%8 == 0
 			c.Strat = "exhaustive"
+			if budget.spent() {
+				break
+			}
 			res := c20Run(env, c, odo.chooser, 400)
+			budget.note(res)
 			if !res.Cmp && len(res.Oracle) == 0 && len(res.Oracle10) == 0 {
 				res.Steps = nil // keep the output small; the schedule is reproducible from the enumeration
 			}
@@ -949,7 +985,7 @@ func TestVerif_C20(t *testing.T) {
 		{"setcb-race", [][]int{{1}, {2}}, [][2]int{{0, 0}, {0, 0}}, []int{1, 0, 0, 0, 2, 2, 1, 0, 0, 0, 3, 3}},
 	} {
 		c := c20Case{ID: id, Kind: cfg.kind, Cmp: true, Cb0: false, Setter: true, Inb: cfg.inb, Script: cfg.script, Strat: "fixed-prefix"}
-		o.emit(c20Run(env, c, func() vsChooser { return c20PrefixChooser(cfg.prefix) }, 3000))
+		run(c, func() vsChooser { return c20PrefixChooser(cfg.prefix) }, 3000)
 		id++
 		late++
 	}
@@ -965,19 +1001,21 @@ func TestVerif_C20(t *testing.T) {
 		// tids: 0 event loop, 1 the user (synchronous reads, then SetCallbacks)
 		if k%3 != 2 {
 			c.Strat = "arrivals;sync-read;then-random"
-			o.emit(c20Run(env, c, func() vsChooser { return c20PhaseChooser([]int{0}, vsRandomChooser(r, 50, 0)) }, 3000))
+			run(c, func() vsChooser { return c20PhaseChooser([]int{0}, vsRandomChooser(r, 50, 0)) }, 3000)
 		} else {
 			strat, mk := c20Strategy(r, id, 2)
 			c.Strat = strat
-			o.emit(c20Run(env, c, mk, 3000))
+			run(c, mk, 3000)
 		}
 		id++
 		late++
 	}
 	// ---- Close() that read callbackInProcess = 0, a goroutine spawned right after, the next arrival sees closed ----
-	o.emit(c20Run(env, c20Case{ID: id, Kind: "recycle-under-ondata", Strat: "fixed-prefix", Cmp: false, Cb0: true, NCl: 1, MidYield: true,
+	run(c20Case{ID: id, Kind: "recycle-under-ondata", Strat: "fixed-prefix", Cmp: false, Cb0: true, NCl: 1, MidYield: true,
 		Inb: [][]int{{1, 2, 3}, {4}}, Script: [][2]int{{3, 0}}},
-		func() vsChooser { return c20PrefixChooser([]int{1, 1, 0, 0, 0, 2, 2, 1, 1, 1, 0, 0, 2}) }, 3000))
+		func() vsChooser {
+			return c20PrefixChooser([]int{1, 1, 0, 0, 0, 0, 0, 0, 2, 2, 2, 2, 2, 1, 1, 1, 0, 0, 0, 0, 0, 0, 0, 2})
+		}, 3000)
 	id++
 	for k := 0; k < n/10; k++ {
 		c := c20Case{ID: id, Kind: "late-setcb", Cmp: true, Cb0: false, Setter: true}
@@ -985,12 +1023,12 @@ func TestVerif_C20(t *testing.T) {
 		c.Script = c20GenScript(r, 0)
 		strat, mk := c20Strategy(r, id, 2)
 		c.Strat = strat
-		o.emit(c20Run(env, c, mk, 3000))
+		run(c, mk, 3000)
 		id++
 		late++
 	}
 	t.Logf("emitted %d cases (%d systematic, %d exhaustive complete=%v, %d late-callbacks)", id, sys, exh, complete, late)
-	o.emit(map[string]interface{}{"summary": true, "exhaustive": exh, "exhaustive_complete": complete})
+	o.emit(map[string]interface{}{"summary": true, "exhaustive": exh, "exhaustive_complete": complete, "stopped_early_after_failures": budget.spent()})
 }
 
 // ---- real session pair (probabilistic support): numbered multi-slice messages from a continuous sender, a callback
